@@ -757,6 +757,32 @@ struct Engine
                     if (t2.crashed || t2.sc.e[v.rejkey].present == t.sc.e[v.rejkey].present)
                         v.props &= ~P(9);
                 }
+            // ... and "the update did not restart the TTL": the same history with that update replaced by an
+            // erase + fresh insert must show a different fate for the key, otherwise the deviation is not
+            // specific to the update (e.g. every deadline is rounded, or a purge was skipped).
+            for (auto& v : vs)
+                if (v.updkey > 0 && (report & P(9)) && (v.props & P(9)))
+                {
+                    int pos = base.e[v.updkey].updpos;
+                    if (pos < 0 || pos >= (int)hist.size())
+                    {
+                        v.props &= ~P(9);
+                        continue;
+                    }
+                    std::vector<Op> h2(hist.begin(), hist.begin() + pos);
+                    Op              er;
+                    er.k      = OpK::Erase;
+                    er.n      = 1;
+                    er.key[0] = (int16_t)v.updkey;
+                    h2.push_back(er);
+                    Op in2   = hist[pos];
+                    in2.allow = 3;
+                    h2.push_back(in2);
+                    h2.insert(h2.end(), hist.begin() + pos + 1, hist.end());
+                    Tr t2 = exec(h2, &op);
+                    if (t2.crashed || t2.sc.e[v.updkey].present == t.sc.e[v.updkey].present)
+                        v.props &= ~P(9);
+                }
             if ((int)outcomes.size() < 5000)
             {
                 outcomes.insert(std::string(opk_name(op.k)) + t.r.str());
